@@ -62,6 +62,16 @@ def api(rec, blz, acct):
             except SchwiftyException:
                 pass
             rec.classes["sibling-warmup"] += 1
+    if n % 3 == 0:
+        # the same eight digits are a bank code of other countries too (same field width): their IBANs judged first
+        import random as _random
+        from ._shared import field_siblings
+        for y, t in field_siblings("DE", "bank_code", blz, _random.Random(n), limit=3):
+            try:
+                IBAN(t, validate_bban=True)
+            except SchwiftyException:
+                pass
+            rec.classes["bank-code-sibling-warmup"] += 1
     if n % 5 == 0:
         # other ways of handing over the same IBAN with national validation requested must agree with the constructor
         verdicts = {}
@@ -360,7 +370,7 @@ def run(ctx):
             need.append(f"{m}-reject")
     from ._configs import stage as _config_stage
     _config_stage(ctx, ['german'])
-    ctx.require_classes("source-literals-method", "source-literals-bank", "source-literals-pair", "sparse-accounts", "sibling-warmup", "argument-forms", "bank-implemented", "bank-unimplemented-method", "bank-unlisted", "metamorphic-pair", *need)
+    ctx.require_classes("bank-code-sibling-warmup", "source-literals-method", "source-literals-bank", "source-literals-pair", "sparse-accounts", "sibling-warmup", "argument-forms", "bank-implemented", "bank-unimplemented-method", "bank-unlisted", "metamorphic-pair", *need)
     ctx.extra["per_method"] = {m: {"accept": ctx.rec.classes.get(f"{m}-accept", 0), "reject": ctx.rec.classes.get(f"{m}-reject", 0),
                                    "undecided": ctx.rec.classes.get(f"{m}-undecided", 0)} for m in st["impl"]}
     ctx.extra["implemented_methods"] = len(st["impl"])
